@@ -1,6 +1,7 @@
 //! Shared helpers for the per-property checkers (this crate links the real stats-ci).
 
 pub mod ivx;
+pub mod meanchk;
 pub mod models;
 
 use mc::Kind;
